@@ -16,7 +16,7 @@ func init() {
 		Explanation: "Structural necessary conditions for 'the file on disk is a complete old or new checkpoint': with snapdUnsafeIO pruned to false, (R1) AtomicFile.commit reaches os.Rename(tmpname,target) only across Sync()==nil and Close()==nil of the temp file; (R2) the parent directory is opened before the rename and every return after a successful rename is the directory's Sync(); (R3) snapdUnsafeIO is assigned only by its initialiser and only true under IsTestBinary(); (R4) AtomicWriteChown commits only after io.Copy into the temp file succeeded, and NewAtomicFile opens a fresh random-named temp (O_CREATE|O_EXCL, name ends in '~', never the target); (R5) the overlord state backend checkpoints only through AtomicWriteFile on its own path; (R6) AtomicRename syncs the old and (when distinct) the new directory on every successful path.",
 		NotDecided:  "the file-system persistence model itself (that fsync + rename + directory fsync is sufficient is the standard assumption); what the kernel does on power loss.",
 		Assumptions: []string{"fsync(file); rename; fsync(dir) makes the rename durable and atomic on the target file system"},
-		Run:         func(c *Ctx) { runC06(c); runC06x(c) },
+		Run:         func(c *Ctx) { runC06(c); runC06x(c); runC06z(c) },
 	})
 }
 
